@@ -280,7 +280,7 @@ async fn run_async(sc: &Scn, render: bool) -> RunOutput {
     }
     let mut h = Fnv::default();
     h.str(&format!("{pings:?} {:?} {ended_at:?} {res:?}", pongs_rx.iter().map(|(t, _)| *t).collect::<Vec<_>>()));
-    let out = RunOutput { steps: w.sim.steps, fingerprints: fps, outcome: h.0, violations: viol, witnesses: wit, horizon: false, rendering: render.then(|| log.join(" ")) };
+    let out = RunOutput { blocked: false, steps: w.sim.steps, fingerprints: fps, outcome: h.0, violations: viol, witnesses: wit, horizon: false, rendering: render.then(|| log.join(" ")) };
     w.sim.teardown();
     out
 }
